@@ -23,7 +23,7 @@ ANGLES = {
     (2, 2): {'s1': -0.4, 'v2': [0.3, -1.1], 'c21': [[0.7], [2.5]], 'm22': [[0.1, 1.2], [-2.0, 0.6]]},
     (2, 3): {'s1': math.pi / 3, 'r3': [0.3, -1.1, 2.5], 'c21': [[0.3], [-7.0]], 'm23': [[0.0, math.pi / 8, 1e-3], [math.pi / 2, -0.4, 2.5]], 'r13': [[1.0, 2.0, -3.0]]},
 }
-SYMS = {'Rn': ('S', 'S'), 'R1': ('S', 'S'), 'R2': ('S', 'S'), 'R1t': ('S', 'S'), 'R2t': ('S', 'S'), 'H': ('S', 'S'), 'Pol': ('S', 'D')}
+SYMS = {'Rn': ('S', 'S'), 'R1': ('S', 'S'), 'R2': ('S', 'S'), 'R1t': ('S', 'S'), 'R2t': ('S', 'S'), 'H': ('S', 'S'), 'Pol': ('S', 'D'), 'PolT': ('D', 'S')}
 
 
 def chains(maxlen):
@@ -53,6 +53,10 @@ def _plan(tier, seed):
     L = 3 if tier == 'quick' else 4
     ch = [{'kind': k, 'shape': [2], 'a1': 'v1', 'a2': 'v2', 'chain': c} for k in KINDS for c in chains(L)]
     ch += [{'kind': k, 'shape': [2, 3], 'a1': 'c21', 'a2': 's1', 'chain': c} for k in ('IQU', 'QU') for c in chains(3)]
+    if L < 4:   # congruences X' a b X whose two ends are an operator and its own transpose (or the same symmetric operator)
+        inner = [s_ for s_ in SYMS if SYMS[s_] == ('S', 'S')]
+        ch += [{'kind': k, 'shape': [2], 'a1': 'v1', 'a2': 'v2', 'chain': [l_, a_, b_, r_]} for k in KINDS for l_, r_ in (('R1t', 'R1'), ('R1', 'R1t'), ('H', 'H'), ('Pol', 'PolT'))
+               for a_ in inner for b_ in inner]
     return [
         {'name': 'ops_x32', 'target': TARGET, 'x64': False, 'cases': basic, 'chunk': 2},
         {'name': 'ops_x64', 'target': TARGET, 'x64': True, 'cases': basic + [{'kind': k, 'shape': [2], 'angles': 'big', 'f32data': True} for k in KINDS], 'chunk': 2},
@@ -217,10 +221,11 @@ def run(phase, cases, ctx):
                 an0 = an.copy()
                 fn = np.broadcast_to(an0.astype(float), shape)
                 Rn = QURotationOperator(an, S)
-                ops = {'Rn': Rn, 'R1': R1, 'R2': R2, 'R1t': R1.T, 'R2t': R2.T, 'H': HWPOperator(S), 'Pol': LinearPolarizerOperator(S)}
+                Pol_ = LinearPolarizerOperator(S)
+                ops = {'Rn': Rn, 'R1': R1, 'R2': R2, 'R1t': R1.T, 'R2t': R2.T, 'H': HWPOperator(S), 'Pol': Pol_, 'PolT': Pol_.T}
                 refs = {'Rn': stokes_matrix(kind, shape, 'rot', fn), 'R1': stokes_matrix(kind, shape, 'rot', f1), 'R2': stokes_matrix(kind, shape, 'rot', f2),
                         'R1t': stokes_matrix(kind, shape, 'rot_t', f1), 'R2t': stokes_matrix(kind, shape, 'rot_t', f2),
-                        'H': stokes_matrix(kind, shape, 'hwp', f1), 'Pol': pol_matrix(kind, shape)}
+                        'H': stokes_matrix(kind, shape, 'hwp', f1), 'Pol': pol_matrix(kind, shape), 'PolT': pol_matrix(kind, shape).T}
                 ref = None
                 for nme in case['chain']:
                     ref = refs[nme] if ref is None else ref @ refs[nme]
@@ -230,6 +235,10 @@ def run(phase, cases, ctx):
                     red = comp.reduce()
                 cmp(case, 'chain reduced', red, ref)
                 cmp(case, 'chain again after reduce()', comp, ref)   # reduce() must not have modified the operands
+                compT = P.lib('transpose of the chain', lambda: comp.T)
+                cmp(case, 'transposed chain', compT, ref.T)
+                with xstate.Timeout(60):
+                    cmp(case, 'transposed chain reduced', compT.reduce(), ref.T)
                 if not np.array_equal(an, an0):
                     violations.append({'kind': 'operand-mutated', 'case': case, 'detail': f'the angle array passed by the caller was changed in place: {an0} -> {an}'})
                 nops = len(red.operands) if isinstance(red, CompositionOperator) else 1
